@@ -60,7 +60,7 @@ CodeAccepts(x) ==
   ELSE IF ~x.isMirror /\ x.privKey # "ok" THEN FALSE
   ELSE IF x.isMirror /\ x.privKey # "absent" THEN FALSE
   ELSE IF x.rejectExpired /\ x.rejectUnexpired THEN FALSE
-  ELSE IF x.ekus = "unknown" THEN FALSE
+  ELSE IF x.ekus \in {"unknown", "unknownThenAny", "anyThenUnknown"} THEN FALSE   \* every name is looked up, Any or not
   ELSE IF x.start = "invalid" \/ x.limit = "invalid" THEN FALSE
   ELSE IF x.start = "t2" /\ x.limit = "t1" THEN FALSE
   ELSE IF x.mmd < 0 \/ x.expected < 0 \/ x.expected > x.mmd THEN FALSE
